@@ -157,3 +157,17 @@ Definition meta_view (d : rdesc) : mview :=
        (match p with inl (_, _, a) => a | inr _ => [] end)
        (match s with inl (_, Some fp) => fp | _ => [] end)
        (match o with inl t => t | inr _ => [] end).
+
+(* ---------- header accessors (sif.go: LaunchScript, Version, PrimaryArch, ID, times, section bounds) ---------- *)
+
+Definition launch_of (h : header) : list byte := trim_nul (h_launch h).
+Definition version_of (h : header) : list byte := trim_nul (h_version h).
+Definition primary_arch (h : header) : list byte := go_arch (h_arch h).
+
+Record hview := mkHV {
+  hv_launch : list byte; hv_version : list byte; hv_arch : list byte; hv_id : list byte;
+  hv_nums : list Z }.     (* ctime, mtime, free, total, descoff, descsize, dataoff, datasize *)
+
+Definition header_view (h : header) : hview :=
+  mkHV (launch_of h) (version_of h) (primary_arch h) (h_id h)
+       [h_ctime h; h_mtime h; h_free h; h_total h; h_descoff h; h_descsize h; h_dataoff h; h_datasize h].
